@@ -24,6 +24,13 @@ open I18n.Spec.Charset (gettextCharsets asciiRepertoire gettextLists InjectiveOn
 
 set_option maxRecDepth 100000
 
+private instance exceptDecEq {ε α : Type} [DecidableEq ε] [DecidableEq α] : DecidableEq (Except ε α)
+  | .ok a, .ok b => if h : a = b then isTrue (by rw [h]) else isFalse (by intro h'; cases h'; exact h rfl)
+  | .error a, .error b => if h : a = b then isTrue (by rw [h]) else isFalse (by intro h'; cases h'; exact h rfl)
+  | .ok _, .error _ => isFalse (by intro h; cases h)
+  | .error _, .ok _ => isFalse (by intro h; cases h)
+
+
 /-! ## Pins: the tables the tool loaded are what the data files and the specification say -/
 
 /-- the tool's ASCII repertoire is the documented one (NUL EOT BEL BS HT LF VT FF CR ESC + printable) -/
@@ -174,6 +181,108 @@ theorem extra_charmaps_agree_iconv :
 theorem koi8t_table_roundtrip (bs : List UInt8) (cs : List Nat) (h : charmapDecode koi8tTable bs = .ok cs) :
     charmapEncode koi8tTable cs = .ok bs :=
   Charset.charmap_roundtrip koi8tTable (injBool_sound _ koi8t_injective) bs cs h
+
+/-! ### the reverse direction, the bijection, exact error positions -/
+
+/-- **decode(encode(s)) = s** for every table — whenever `charmap_build` took its trie form (which never maps U+FFFE), or the
+    text does not contain U+FFFE … -/
+theorem charmap_encode_decode (table : List Nat) (cs : List Nat) (bs : List UInt8)
+    (hu : needDict table = false ∨ undefinedCp ∉ cs)
+    (h : charmapEncode table cs = .ok bs) : charmapDecode table bs = .ok cs := Charset.charmap_encode_decode table cs bs hu h
+
+/-- … and that side condition is needed: in the dict form of `charmap_build` U+FFFE is an ordinary key, while the decoder
+    reads U+FFFE as "undefined" (`'\ufffe'.encode` succeeds, decoding the result raises) -/
+theorem charmap_encode_decode_needs_trie :
+    needDict [1, 0xFFFE] = true ∧ charmapEncode [1, 0xFFFE] [0xFFFE] = .ok [1] ∧ charmapDecode [1, 0xFFFE] [1] = .error (0, 1) := by
+  decide +kernel
+
+/-- **the bijection on the defined repertoire** (every table injective on its defined entries, trie form): byte `b` decodes
+    to the defined character `c` iff `c` encodes to `b` -/
+theorem charmap_bijection (table : List Nat) (hinj : InjectiveOnDefined table) (htrie : needDict table = false)
+    (b : UInt8) (c : Nat) : (table[b.toNat]? = some c ∧ c ≠ undefinedCp) ↔ encLookup table c = some b :=
+  encLookup_iff table hinj htrie b c
+
+/-- encoding succeeds iff every character has a byte; decoding succeeds iff every byte has a defined entry -/
+theorem charmap_ok_iff (table : List Nat) (cs : List Nat) (bs : List UInt8) :
+    ((∃ out, charmapEncode table cs = .ok out) ↔ ∀ c ∈ cs, (encLookup table c).isSome = true) ∧
+    ((∃ out, charmapDecode table bs = .ok out) ↔ ∀ b ∈ bs, definedAt table b = true) :=
+  ⟨encodeFrom_ok_iff _ cs 0, decodeFrom_ok_iff table bs 0⟩
+
+/-- **UnicodeEncodeError positions**: `start .. end` is exactly the first run of unencodable characters — everything before
+    `start` encodes, nothing in `start .. end` does, the character at `end` (if there is one) does -/
+theorem charmap_encode_error_position (table : List Nat) (cs : List Nat) (s e : Nat)
+    (h : charmapEncode table cs = .error (s, e)) :
+    s < e ∧ e ≤ cs.length ∧
+    (∀ k, k < s → ∃ c, cs[k]? = some c ∧ (encLookup table c).isSome = true) ∧
+    (∀ k, s ≤ k → k < e → ∃ c, cs[k]? = some c ∧ encLookup table c = none) ∧
+    (∀ c, cs[e]? = some c → (encLookup table c).isSome = true) := charmapEncode_error_exact table cs s e h
+
+/-- **UnicodeDecodeError positions**: `start` is the first byte without a defined entry, `end = start + 1` -/
+theorem charmap_decode_error_position (table : List Nat) (bs : List UInt8) (s e : Nat)
+    (h : charmapDecode table bs = .error (s, e)) :
+    e = s + 1 ∧ s < bs.length ∧
+    (∀ k, k < s → ∃ b, bs[k]? = some b ∧ definedAt table b = true) ∧
+    (∃ b, bs[s]? = some b ∧ definedAt table b = false) := charmapDecode_error_exact table bs s e h
+
+/-- the three shipped tables, both directions: what encodes decodes back to the same text, a character encodes iff it is one
+    of the 256 entries (to the byte at which it stands), and an encode error names the first run of characters outside the table -/
+theorem extra_charmaps_bijective : ∀ kv ∈ charmaps,
+    (∀ cs bs, charmapEncode kv.2 cs = .ok bs → charmapDecode kv.2 bs = .ok cs) ∧
+    (∀ (b : UInt8) c, kv.2[b.toNat]? = some c ↔ encLookup kv.2 c = some b) ∧
+    (∀ cs s e, charmapEncode kv.2 cs = .error (s, e) → s < e ∧ e ≤ cs.length ∧
+      (∀ k, s ≤ k → k < e → ∃ c, cs[k]? = some c ∧ c ∉ kv.2) ∧ (∀ k, k < s → ∃ c, cs[k]? = some c ∧ c ∈ kv.2)) := by
+  intro kv hkv
+  have htrie := trie_of_mem kv hkv
+  have hinj := injective_of_mem kv hkv
+  have hc := charmaps_complete
+  rw [List.all_eq_true] at hc
+  have hcomp := hc kv hkv
+  simp only [complete, Bool.and_eq_true, beq_iff_eq, List.all_eq_true, bne_iff_ne, ne_eq] at hcomp
+  have hmem : ∀ c, c ∈ kv.2 ↔ (encLookup kv.2 c).isSome = true := by
+    intro c
+    constructor
+    · intro hm
+      obtain ⟨i, hi, hget⟩ := List.getElem_of_mem hm
+      have hi' : i < 256 := by omega
+      have hb : (UInt8.ofNat i).toNat = i := by rw [UInt8.toNat_ofNat']; omega
+      have h1 : kv.2[(UInt8.ofNat i).toNat]? = some c := by rw [hb, List.getElem?_eq_getElem hi, hget]
+      rw [encLookup_of_entry kv.2 hinj (UInt8.ofNat i) c h1 (hcomp.2 c hm)]; rfl
+    · intro hs
+      cases hl : encLookup kv.2 c with
+      | none => simp [hl] at hs
+      | some b => exact List.mem_of_getElem? (encLookup_sound kv.2 c b hl).1
+  refine ⟨fun cs bs h => Charset.charmap_encode_decode kv.2 cs bs (.inl htrie) h, ?_, ?_⟩
+  · intro b c
+    rw [← encLookup_iff kv.2 hinj htrie b c]
+    exact ⟨fun h => ⟨h, hcomp.2 c (List.mem_of_getElem? h)⟩, fun h => h.1⟩
+  · intro cs s e h
+    obtain ⟨h1, h2, h3, h4, _⟩ := charmapEncode_error_exact kv.2 cs s e h
+    refine ⟨h1, h2, ?_, ?_⟩
+    · intro k hk1 hk2
+      obtain ⟨c, hc1, hc2⟩ := h4 k hk1 hk2
+      exact ⟨c, hc1, fun hm => by have := (hmem c).1 hm; simp [hc2] at this⟩
+    · intro k hk
+      obtain ⟨c, hc1, hc2⟩ := h3 k hk
+      exact ⟨c, hc1, (hmem c).2 hc2⟩
+
+/-- glibc's KOI8-T table, both directions: lossless from text to bytes as well, a bijection between the bytes it accepts and
+    the characters it encodes, and exact error positions (an undefined byte / the first run of unencodable characters) -/
+theorem koi8t_table_bijective :
+    (∀ cs bs, charmapEncode koi8tTable cs = .ok bs → charmapDecode koi8tTable bs = .ok cs) ∧
+    (∀ (b : UInt8) c, (koi8tTable[b.toNat]? = some c ∧ c ≠ undefinedCp) ↔ encLookup koi8tTable c = some b) ∧
+    (∀ bs s e, charmapDecode koi8tTable bs = .error (s, e) → e = s + 1 ∧ s < bs.length ∧
+      (∃ b, bs[s]? = some b ∧ definedAt koi8tTable b = false) ∧ (∀ k, k < s → ∃ b, bs[k]? = some b ∧ definedAt koi8tTable b = true)) ∧
+    (∀ cs s e, charmapEncode koi8tTable cs = .error (s, e) → s < e ∧ e ≤ cs.length ∧
+      (∀ k, s ≤ k → k < e → ∃ c, cs[k]? = some c ∧ encLookup koi8tTable c = none) ∧
+      (∀ k, k < s → ∃ c, cs[k]? = some c ∧ (encLookup koi8tTable c).isSome = true)) := by
+  refine ⟨fun cs bs h => Charset.charmap_encode_decode _ cs bs (.inl koi8t_trie) h,
+    fun b c => encLookup_iff _ (injBool_sound _ koi8t_injective) koi8t_trie b c, ?_, ?_⟩
+  · intro bs s e h
+    obtain ⟨h1, h2, h3, h4⟩ := charmapDecode_error_exact _ bs s e h
+    exact ⟨h1, h2, h4, h3⟩
+  · intro cs s e h
+    obtain ⟨h1, h2, h3, h4, _⟩ := charmapEncode_error_exact _ cs s e h
+    exact ⟨h1, h2, h4, h3⟩
 
 /-! ## Loading a file with a codec that passed the ASCII-compatibility test -/
 
@@ -360,12 +469,6 @@ theorem check_total (env : Env) (encoding : Name) (isTemplate : Bool) (character
 /-! ## Non-vacuity -/
 
 private def str (s : String) : List Nat := s.toList.map Char.toNat
-
-private instance exceptDecEq {ε α : Type} [DecidableEq ε] [DecidableEq α] : DecidableEq (Except ε α)
-  | .ok a, .ok b => if h : a = b then isTrue (by rw [h]) else isFalse (by intro h'; cases h'; exact h rfl)
-  | .error a, .error b => if h : a = b then isTrue (by rw [h]) else isFalse (by intro h'; cases h'; exact h rfl)
-  | .ok _, .error _ => isFalse (by intro h; cases h)
-  | .error _, .ok _ => isFalse (by intro h; cases h)
 
 /-- `propose_portable_encoding('windows-1250')` = `'CP1250'` (the registry calls both `cp1250`) -/
 example : propose portableEncodings pycodecToEncoding (fun _ => some (str "cp1250")) (str "windows-1250") = .ok (some (str "CP1250")) := by
